@@ -2422,6 +2422,27 @@ def write_cache_meta(meta: CacheMeta, manager: BuildManager, meta_file: str) -> 
         manager.log(f"Error writing cache meta file {meta_file}")
 
 
+def invalidate_cache_meta_ex(meta_file: str, manager: BuildManager) -> bool:
+    """Remove the meta_ex record that belongs to the previous version of a meta file.
+
+    Nothing in a meta_ex record says which meta record it was written for, so this must
+    be done before a new meta record is published: otherwise, if the matching new meta_ex
+    is never written (the write fails, or the process is killed first), the next run pairs
+    the new meta with the old meta_ex and replays outdated errors and indirect dependencies.
+    With the old record gone the module is simply treated as not cached.
+
+    Return False if the old record may still be there.
+    """
+    try:
+        manager.metastore.remove(get_meta_ex_name(meta_file))
+    except FileNotFoundError:
+        pass
+    except OSError:
+        manager.log(f"Error removing stale meta_ex file for {meta_file}")
+        return False
+    return True
+
+
 def write_cache_meta_ex(meta_file: str, meta_ex: CacheMetaEx, manager: BuildManager) -> None:
     # Write errors cache file
     meta_ex_file = get_meta_ex_name(meta_file)
@@ -4847,6 +4868,8 @@ def process_stale_scc(graph: Graph, ascc: SCC, manager: BuildManager) -> None:
             for dep in graph[id].dependencies
             if state.priorities.get(dep) != PRI_INDIRECT
         ]
+        if not invalidate_cache_meta_ex(meta_file, manager):
+            continue
         write_cache_meta(meta, manager, meta_file)
         indirect = [dep for dep in state.dependencies if state.priorities.get(dep) == PRI_INDIRECT]
         meta_ex = CacheMetaEx(
@@ -4925,7 +4948,8 @@ def process_stale_scc_interface(
             for dep in state.dependencies
             if state.priorities.get(dep) != PRI_INDIRECT
         ]
-        write_cache_meta(meta, manager, meta_file)
+        if invalidate_cache_meta_ex(meta_file, manager):
+            write_cache_meta(meta, manager, meta_file)
         manager.commit_module(meta_file)
         scc_result.append((id, ModuleResult(graph[id].interface_hash.hex(), []), meta_file))
     manager.done_sccs.add(ascc.id)
